@@ -43,23 +43,54 @@ def run(ctx):
         if not (len(doms) == 1 and re.match(r'^ItemPath::is_empty\(\w+\)$', doms[0])):
             ok_early = False
     ctx.ob(['C14'], 'R-DOM', 'C14-D1|skips-only-root', ok_early and len(early) <= 1, 'the only way to return Ok without writing the file is key.is_empty() (the root module): %s' % det, where)
-    # path = out_dir + segments + .rs
-    pushes = [c for c in wm.calls(lambda r: r['path'] and r['path'].endswith('PathBuf::push'))]
+    # path = out_dir + segments + .rs   (built in write_module itself or in a helper whose result is the path written)
+    G, call_args_ = wm, None
+    if fw:
+        pa0 = strip(expand(wm, wm.expr_of_operand(fw[0]['term']['args'][0])))
+        while pa0[0] == 'call' and pa0[1] not in P.fns and pa0[2] and re.search(r'(deref|as_ref|as_path|borrow|clone)$', pa0[1]):
+            pa0 = strip(pa0[2][0])
+        if pa0[0] == 'call' and pa0[1] in P.fns and P.fns[pa0[1]].raw.get('output', '') == 'std::path::PathBuf':
+            G, call_args_ = P.fns[pa0[1]], pa0[2]
+    pushes = [c for c in G.calls(lambda r: r['path'] and r['path'].endswith('PathBuf::push'))]
+    exts_ = [c for c in G.calls(lambda r: r['gpath'] and r['gpath'].endswith('Extend::extend') and 'PathBuf' in (r['callee'].get('self_ty') or r['callee'].get('full') or ''))]
     okp = False
-    if len(pushes) == 1:
-        L = innermost_loop(wm, pushes[0]['block'])
-        sty, src = loop_source(wm, L) if L else (None, None)
-        arg = wm.expr_of_operand(pushes[0]['term']['args'][1])
-        okp = bool(L) and sty == "std::slice::Iter<'_, grammar::ItemPathSegment>" and bool(find_calls(src, 'ItemPath::iter')) and not cycle_without(wm, L[1], L[0], {pushes[0]['block']}) \
+    pvar = None
+    if len(pushes) == 1 and not exts_:
+        L = innermost_loop(G, pushes[0]['block'])
+        sty, src = loop_source(G, L) if L else (None, None)
+        arg = G.expr_of_operand(pushes[0]['term']['args'][1])
+        okp = bool(L) and sty == "std::slice::Iter<'_, grammar::ItemPathSegment>" and bool(find_calls(src, 'ItemPath::iter')) and not cycle_without(G, L[1], L[0], {pushes[0]['block']}) \
             and bool(find_calls(arg, 'ItemPathSegment::as_str')) and any(is_call(x, 'Iterator::next') for x in walk(arg))
-    ext = [c for c in wm.calls(lambda r: r['path'] and r['path'].endswith('PathBuf::set_extension'))]
-    oke = len(ext) == 1 and ('str', 'rs') in list(walk(wm.expr_of_call(ext[0]['term'])))
-    base = [c for c in wm.calls(lambda r: r['path'] and r['path'].endswith('Path::to_path_buf'))]
-    okb = len(base) >= 1 and strip(wm.expr_of_operand(base[0]['term']['args'][0]))[0] == 'arg'
+        pvar = strip(G.expr_of_operand(pushes[0]['term']['args'][0]))
+        key_src = src
+    elif len(exts_) == 1 and not pushes:
+        # path.extend(key.iter().map(|s| s.as_str()))
+        it = strip(expand(G, G.expr_of_operand(exts_[0]['term']['args'][1])))
+        if is_call(it, 'Iterator::map') and is_call(strip(it[2][0]), 'ItemPath::iter') and len(it[2]) == 2:
+            pf = predicate_fn(P, it[2][1])
+            ex_ = [strip(x['expr']) for x in pf.exits()] if pf is not None else []
+            okp = pf is not None and not pf.switches() and (pf.id.endswith('ItemPathSegment::as_str') or (len(ex_) == 1 and is_call(ex_[0], 'ItemPathSegment::as_str')))
+        pvar = strip(G.expr_of_operand(exts_[0]['term']['args'][0]))
+        key_src = it
+    ext = [c for c in G.calls(lambda r: r['path'] and r['path'].endswith('PathBuf::set_extension'))]
+    oke = len(ext) == 1 and ('str', 'rs') in list(walk(G.expr_of_call(ext[0]['term']))) and pvar is not None and strip(G.expr_of_operand(ext[0]['term']['args'][0])) == pvar
+    base = [c for c in G.calls(lambda r: r['path'] and r['path'].endswith('Path::to_path_buf'))]
+    okb = False
+    if pvar is not None and pvar[0] == 'var':
+        ini = [strip(d_) for d_ in G.init_of(pvar[1])]
+        okb = len(ini) == 1 and is_call(ini[0], 'Path::to_path_buf') and strip(ini[0][2][0])[0] == 'arg'
+        if okb and call_args_ is not None:
+            # the helper's parameters are write_module's out_dir and key
+            a_dir = strip(call_args_[strip(ini[0][2][0])[1] - 1])
+            keys_ = [strip(call_args_[x[1] - 1]) for x in walk(key_src) if isinstance(x, tuple) and x[0] == 'arg' and 1 <= x[1] <= len(call_args_)]
+            okb = a_dir[0] == 'arg' and len(keys_) >= 1 and all(k_[0] == 'arg' for k_ in keys_)
     okw = False
     if fw:
         pa = strip(wm.expr_of_operand(fw[0]['term']['args'][0]))
-        okw = pa[0] == 'var' and pushes and strip(wm.expr_of_operand(pushes[0]['term']['args'][0])) == pa
+        if G is wm:
+            okw = pa[0] == 'var' and pvar == pa
+        else:
+            okw = all(strip(x['expr']) == pvar for x in G.exits()) and len(G.exits()) == 1
     ctx.ob(['C14'], 'R-EXPR', 'C14-D1|output-path', bool(okp and oke and okb and okw), 'the file written is out_dir / every path segment of the module key, in order, with extension `rs`', where)
     # lib::build calls write_module for every module
     calls = [c for c in lb.calls(lambda r: r['path'] == wm.id)]
@@ -101,10 +132,60 @@ def run(ctx):
             c3 = bool(err_t) and all(wm.exit_kinds_from(t) <= {'err_own', 'err_prop', 'diverge'} for t in err_t)
             okg = c1 and (c2 or c3)
             det = 'parse on every path: %s; Err arm ends in Err (flag %s / direct %s)' % (c1, c2, c3)
+    helper_pf = None
+    if not pf and len(oks) >= 1:
+        # the parse may live in a helper called by write_module: the helper reports failure through an Option component of its
+        # result (Some exactly on the Err arm), and write_module must turn Some into Err on every path to its Ok
+        for hc in wm.calls(lambda r: r['path'] in P.fns and P.fns[r['path']].kind != 'Closure'):
+            H = P.fns[hc['path']]
+            hpf = [c for c in H.calls(lambda r: r['path'] == 'syn::parse_file')]
+            if len(hpf) != 1:
+                continue
+            helper_pf = (H, hc, hpf[0])
+            final = [x for x in oks if x not in early]
+            pe = H.expr_of_call(hpf[0]['term'])
+            sw = [s_ for s_ in H.switches() if s_['cond'][0] == 'discr' and s_['cond'][1] == pe]
+            if len(sw) != 1 or not final:
+                break
+            err_t = [tgt for lab, tgt in sw[0]['edges'] if lab == 'Err']
+            ok_t = [tgt for lab, tgt in sw[0]['edges'] if lab == 'Ok']
+            sides = {'err': [], 'ok': [], 'other': []}
+            for x in H.exits():
+                side = 'err' if any(H.dominates(t, x['block']) for t in err_t) else 'ok' if any(H.dominates(t, x['block']) for t in ok_t) else 'other'
+                sides[side] += split_values(H, x['expr'])
+            comp = None
+            if sides['err'] and sides['ok'] and not sides['other'] and all(v[0] == 'tuple' for v in sides['err'] + sides['ok']):
+                n_ = len(sides['err'][0][1])
+                for i_ in range(n_):
+                    if all(len(v[1]) == n_ and v[1][i_][0] == 'agg' and v[1][i_][1].endswith('Option::Some') for v in sides['err']) and \
+                            all(len(v[1]) == n_ and v[1][i_][0] == 'agg' and v[1][i_][1].endswith('Option::None') for v in sides['ok']):
+                        comp = i_
+            c1h = all(unreachable_without(H, x['block'], {hpf[0]['block']}) for x in H.exits())
+            c1 = all(unreachable_without(wm, x['block'], {hc['block']}) for x in final)
+            he = wm.expr_of_call(hc['term'])
+            flag = []
+            for g in gs:
+                if g.kind == 'reject' and g.pred[0] == 'is_some' and comp is not None and covers_all_paths(wm, g, exits=final):
+                    for fe in (simplify(strip(g.pred[1])), simplify(strip(expand(wm, g.pred[1])))):
+                        if fe[0] == 'field' and fe[2] == str(comp) and strip(fe[1])[0] == 'call' and strip(fe[1])[1] == H.id and g not in flag:
+                            flag.append(g)
+            okg = bool(c1h and c1 and comp is not None and flag)
+            det = 'parse in helper %s on all its paths: %s; helper called on every path to Ok: %s; failure component %s; turned into Err by write_module: %s' % (short(H.id), c1h, c1, comp, bool(flag))
+            break
     ctx.ob(['C13', 'C12'], 'R-DOM', 'C13-D1|parse-gate', okg, 'write_module returns Ok only if syn::parse_file accepted the complete text that is written: %s' % det, where)
     # the text parsed is the text assembled
     okt = False
-    if pf and fw:
+    if not pf and helper_pf and fw:
+        H, hc, hp_ = helper_pf
+        parsed = strip(H.expr_of_operand(hp_['term']['args'][0]))
+        while is_call(parsed, 'deref') or is_call(parsed, 'as_str'):
+            parsed = strip(parsed[2][0])
+        if parsed[0] == 'arg':
+            parsed = strip(wm.expr_of_operand(hc['term']['args'][parsed[1] - 1]))
+            okt = parsed[0] == 'var' and wm.local_ty(parsed[1]) == 'std::string::String'
+            ctx.RAW = parsed
+            pf = [hc]      # for the ordering rules below: the helper call is where the buffer is parsed
+    elif pf and fw:
         parsed = strip(wm.expr_of_operand(pf[0]['term']['args'][0]))
         while is_call(parsed, 'deref') or is_call(parsed, 'as_str'):
             parsed = strip(parsed[2][0])
@@ -237,6 +318,12 @@ def run(ctx):
     am = [f for f in P.fns.values() if f.id.endswith('SemanticState::add_module')]
     if am:
         cl = [am[0]] + P.closures_of(am[0])
+        # the per-value conversion may be a function of its own, called from add_module (directly or from its closures)
+        for g_ in list(cl):
+            for w in P.callees(g_.id, kinds=('call', 'fnref')):
+                h_ = P.fns.get(w)
+                if h_ is not None and h_ not in cl and not h_.raw.get('derived') and 'ExternValue' in h_.raw.get('output', '') and 'grammar::ExternValue' in ' '.join(h_.raw.get('inputs', [])):
+                    cl += [h_] + P.closures_of(h_)
         ok = False
         for f in cl:
             for x in f.exits():
